@@ -63,7 +63,7 @@ only moves by an answer, on both sides at once.  Not included: `low ≤ high` of
 keys, an updater law) and the ranges of workers that were bypassed by a relink (empty by then: `low = high`, an oracle of
 the differential). -/
 theorem T16_ranges_adjacent_every_schedule {σ N C : Type} (U : Upd σ N C) (cfg : Cfg) (hs : cfg.staleHigh = false)
-    (db : List (DbN N)) (cs : List (Nat × C)) (look : Nat → Option Nat) (hlook : ∀ k s, look k = some s → s ≤ k)
+    (hm : cfg.highMax = false) (db : List (DbN N)) (cs : List (Nat × C)) (look : Nat → Option Nat) (hlook : ∀ k s, look k = some s → s ≤ k)
     (hasc : Asc (cs.map (·.1))) (hne : cs ≠ []) (count : Nat) (s : List Nat) :
     match runSched U cfg db s (initG U cfg db cs (prepareWorkers look (cs.map (·.1)) count)) with
     | .inr g' => Adj g'
@@ -75,7 +75,7 @@ theorem T16_ranges_adjacent_every_schedule {σ N C : Type} (U : Upd σ N C) (cfg
   have hc := (prepLoop_chain look hlook (cs.map (·.1)) hasc (cs.map (·.1)).length (count - 1) 0 (cs.map (·.1))
     { low := none, high := none, start := 0, stop := (cs.map (·.1)).length, left := false, right := false }
     (by simp) (Nat.zero_le _) rfl rfl rfl (Nat.le_refl _) hlen (fun _ _ l _ _ h => by cases h)).1
-  exact adj_runSched U cfg db hs s _ (inv_init U cfg db cs (cs.map (·.1)) _ none 0 false hc)
+  exact adj_runSched U cfg db hs hm s _ (inv_init U cfg db cs (cs.map (·.1)) _ none 0 false hc)
     (adj_init U cfg db cs (cs.map (·.1)) _ none 0 false hc)
 
 /-! ## non-vacuity -/
